@@ -4,6 +4,7 @@ package main
 
 import (
 	"bytes"
+	"context"
 	"fmt"
 	"os"
 	"runtime"
@@ -11,8 +12,11 @@ import (
 	"sync/atomic"
 	"time"
 
+	proto "github.com/kubewharf/kubebrain-client/api/v2rpc"
 	"github.com/kubewharf/kubebrain/pkg/backend"
 	"github.com/kubewharf/kubebrain/pkg/backend/coder"
+	"github.com/kubewharf/kubebrain/pkg/storage"
+	"github.com/kubewharf/kubebrain/pkg/storage/memkv"
 
 	"kbverif/lib"
 )
@@ -267,6 +271,8 @@ func main() {
 				Outcomes: []string{fmt.Sprintf("inside-%v", in)}})
 		}
 	}
+	compactBorders(w, rnd, n/8)
+	partitionTiling(w)
 	concurrentRoundTrips(w, args.Tier)
 	// uint64ToBytes is unexported: observed through the index-record value format (8 bytes big endian)
 	// which ParseRevision inverts; covered by KPar on 8-byte inputs.
@@ -329,4 +335,171 @@ func concurrentRoundTrips(w *lib.Writer, tier string) {
 		w.Fail(*first)
 	}
 	w.Stats.Extra["concurrent_roundtrip_calls"] = calls
+}
+
+// compactBorders: the prefix bounds as the backend itself computes them for compaction, on nodes configured
+// with different key prefixes (the empty default included) and nothing skipped: getCompactBorders must give
+// exactly [Enc(p/,0), Enc(PrefixEnd(p/),0)) and enclose exactly the records of the keys under p/.
+func compactBorders(w *lib.Writer, rnd *lib.Rand, n int) {
+	cfgs := []string{"", "/", "/registry", "/registry/", "/a/b", "%", "/registry/pods", "~", "/r\xff", "/x/y/"}
+	for ci, cfg := range cfgs {
+		b := backend.NewBackend(memkv.NewKvStorage(), backend.Config{Prefix: cfg, Identity: "c10", WatchCacheSize: 16}, &lib.NopMetrics{})
+		borders := backend.VerifCompactBorders(b)
+		if len(borders) != 2 {
+			w.Fail(lib.ImplFailure{CaseID: -1, What: fmt.Sprintf("getCompactBorders of a node with prefix %q and nothing skipped gives %d borders", cfg, len(borders)),
+				Case: map[string]interface{}{"op": "compact_borders", "prefix": lib.HexBytes([]byte(cfg)), "borders": len(borders)}})
+			continue
+		}
+		lo, hi := borders[0], borders[1]
+		p := []byte(cfg)
+		if len(p) == 0 || p[len(p)-1] != '/' {
+			p = append(exact(p), '/')
+		}
+		for j := 0; j < n/len(cfgs)+1; j++ {
+			var k []byte
+			switch rnd.Intn(5) {
+			case 0:
+				k = genAlphaKey(rnd)
+			case 1: // around the true end of the prefix interval
+				stem := exact(p)
+				stem[len(stem)-1]++
+				k = append(stem, [][]byte{{}, {'x'}, {0xff}, {37}}[rnd.Intn(4)]...)
+			case 2: // just below the prefix
+				k = exact(p[:len(p)-1])
+				if rnd.Bool() {
+					k = append(k, '.', 'z')
+				}
+			default:
+				k = related(rnd, p)
+			}
+			r := genRev(rnd)
+			in := inBounds(lo, hi, cd.EncodeObjectKey(k, r))
+			w.Add(lib.Case{Kind: "compact_borders", Coq: lib.App("KBord", lib.Bytes([]byte(cfg)), lib.Bytes(lo), lib.Bytes(hi), lib.Bytes(k), lib.N(r), lib.Bool(in)),
+				JSON:     map[string]interface{}{"op": "compact_borders", "prefix": lib.HexBytes([]byte(cfg)), "lo": lib.HexBytes(lo), "hi": lib.HexBytes(hi), "k": lib.HexBytes(k), "rev": r, "inside": in},
+				Outcomes: []string{fmt.Sprintf("cfg%d-inside-%v", ci, in)}})
+		}
+	}
+}
+
+// iterRec records the bounds of every iterator the backend opens and reports fixed partition borders.
+type iterRec struct {
+	*lib.Wrap
+	mu  sync.Mutex
+	ivs [][2][]byte
+}
+
+func (r *iterRec) Iter(ctx context.Context, start, end []byte, ts, limit uint64) (storage.Iter, error) {
+	r.mu.Lock()
+	r.ivs = append(r.ivs, [2][]byte{exact(start), exact(end)})
+	r.mu.Unlock()
+	return r.Wrap.Iter(ctx, start, end, ts, limit)
+}
+
+// partitionTiling: when the engine reports partitions, the scan bounds of an unlimited range read are
+// computed per partition (scanner.adjustPartitionsBorders realigns a border that falls on a version record
+// to the key's index record). Whatever the borders, the scanned intervals must enclose every record of the
+// raw keys inside the range exactly once: each stored record of the range lies in exactly one interval.
+func partitionTiling(w *lib.Writer) {
+	const prefix = "/registry/"
+	kv := memkv.NewKvStorage()
+	var borders [][]byte
+	rec := &iterRec{Wrap: &lib.Wrap{KvStorage: kv}}
+	rec.Wrap.Partitions = func(start, end []byte) []storage.Partition {
+		var ps []storage.Partition
+		cur := start
+		for _, b := range borders {
+			if bytes.Compare(cur, b) < 0 && bytes.Compare(b, end) < 0 {
+				ps = append(ps, storage.Partition{Start: cur, End: b})
+				cur = b
+			}
+		}
+		return append(ps, storage.Partition{Start: cur, End: end})
+	}
+	b := backend.NewBackend(rec, backend.Config{Prefix: prefix, Identity: "c10", WatchCacheSize: 64}, &lib.NopMetrics{})
+	b.SetCurrentRevision(1000)
+	ctx := context.Background()
+	keys := []string{"/registry/a", "/registry/b", "/registry/b/x", "/registry/c", "/registry/d"}
+	revs := map[string][]uint64{}
+	for _, k := range keys {
+		resp, err := b.Create(ctx, &proto.CreateRequest{Key: []byte(k), Value: []byte("v0")})
+		if err != nil || !resp.Succeeded {
+			w.Fail(lib.ImplFailure{CaseID: -1, What: fmt.Sprintf("partition tiling: create %s: %v", k, err)})
+			return
+		}
+		revs[k] = append(revs[k], resp.Header.Revision)
+	}
+	for i := 0; i < 4; i++ {
+		for _, k := range []string{"/registry/b", "/registry/c"} {
+			last := revs[k][len(revs[k])-1]
+			resp, err := b.Update(ctx, &proto.UpdateRequest{Kv: &proto.KeyValue{Key: []byte(k), Value: []byte(fmt.Sprintf("v%d", i+1)), Revision: last}})
+			if err != nil || !resp.Succeeded {
+				w.Fail(lib.ImplFailure{CaseID: -1, What: fmt.Sprintf("partition tiling: update %s: %v", k, err)})
+				return
+			}
+			revs[k] = append(revs[k], resp.Header.Revision)
+		}
+	}
+	top := revs["/registry/c"][len(revs["/registry/c"])-1]
+	if !lib.WaitUntil(3*time.Second, func() bool { return b.GetCurrentRevision() >= top }) {
+		w.Fail(lib.ImplFailure{CaseID: -1, What: "partition tiling: writes did not become readable"})
+		return
+	}
+	rb, rc := revs["/registry/b"], revs["/registry/c"]
+	configs := [][][]byte{
+		{cd.EncodeObjectKey([]byte("/registry/b"), rb[2])},                                                   // inside b's versions
+		{cd.EncodeObjectKey([]byte("/registry/b"), rb[len(rb)-1])},                                           // b's newest version
+		{cd.EncodeObjectKey([]byte("/registry/b"), 0)},                                                       // on b's index record
+		{cd.EncodeObjectKey([]byte("/registry/b"), rb[1]), cd.EncodeObjectKey([]byte("/registry/b"), rb[3])}, // two borders in one key
+		{cd.EncodeObjectKey([]byte("/registry/b"), rb[2]), cd.EncodeObjectKey([]byte("/registry/c"), rc[1])},
+		{cd.EncodeObjectKey([]byte("/registry/b/x"), 0), cd.EncodeObjectKey([]byte("/registry/c"), rc[3]), cd.EncodeObjectKey([]byte("/registry/d"), 1<<40)},
+	}
+	dump, err := lib.Dump(kv)
+	if err != nil {
+		w.Fail(lib.ImplFailure{CaseID: -1, What: "partition tiling: dump: " + err.Error()})
+		return
+	}
+	start, end := []byte(prefix), backend.PrefixEnd([]byte(prefix))
+	lo, hi := cd.EncodeObjectKey(start, 0), cd.EncodeObjectKey(end, 0)
+	reads := 0
+	for ci, cfg := range configs {
+		borders = cfg
+		for _, rev := range []uint64{rb[0], rb[2], top} {
+			rec.mu.Lock()
+			rec.ivs = nil
+			rec.mu.Unlock()
+			if _, err := b.List(ctx, &proto.RangeRequest{Key: start, End: end, Revision: rev}); err != nil {
+				w.Fail(lib.ImplFailure{CaseID: -1, What: fmt.Sprintf("partition tiling: list at %d: %v", rev, err)})
+				continue
+			}
+			reads++
+			rec.mu.Lock()
+			ivs := rec.ivs
+			rec.mu.Unlock()
+			for _, d := range dump {
+				if !inBounds(lo, hi, d.K) {
+					continue
+				}
+				n := 0
+				for _, iv := range ivs {
+					if inBounds(iv[0], iv[1], d.K) {
+						n++
+					}
+				}
+				if n != 1 {
+					hexIvs := []string{}
+					for _, iv := range ivs {
+						hexIvs = append(hexIvs, fmt.Sprintf("[%x,%x)", iv[0], iv[1]))
+					}
+					hexB := []string{}
+					for _, x := range cfg {
+						hexB = append(hexB, lib.HexBytes(x))
+					}
+					w.Fail(lib.ImplFailure{CaseID: -1, What: fmt.Sprintf("partition tiling: record %x of a key inside the range lies in %d of the scanned intervals of an unlimited List at %d (engine borders config %d)", d.K, n, rev, ci),
+						Case: map[string]interface{}{"op": "partition_tiling", "engine_borders": hexB, "revision": rev, "record": lib.HexBytes(d.K), "scanned": hexIvs}})
+					break
+				}
+			}
+		}
+	}
+	w.Stats.Extra["partition_tiling_reads"] = reads
 }
